@@ -227,6 +227,26 @@ impl ConsumerGroup {
         entries
     }
     
+    /// Record a delivery that creates no pending entries (XREADGROUP ... NOACK): the group
+    /// still moves past the delivered entries
+    pub fn advance_last_id(&self, id: StreamId) {
+        let mut last_id = self.last_delivered_id.lock().unwrap();
+        if id > *last_id {
+            *last_id = id;
+        }
+    }
+    
+    /// IDs pending for one consumer that are greater than `after`, in ID order
+    pub fn pending_ids_of(&self, consumer: &str, after: StreamId, count: Option<usize>) -> Vec<StreamId> {
+        let pending = self.pending.read().unwrap();
+        pending.get_entries_after(after)
+            .into_iter()
+            .filter(|entry| entry.consumer == consumer)
+            .map(|entry| entry.id)
+            .take(count.unwrap_or(usize::MAX))
+            .collect()
+    }
+    
     /// Acknowledge messages, removing them from pending
     pub fn acknowledge(&self, ids: &[StreamId]) -> usize {
         let mut pending = self.pending.write().unwrap();
